@@ -569,7 +569,7 @@ package kv
 //@   requires r != nil && r.db != nil
 //@   modifies nothing
 //@ func (*DB).TraceHistory
-//@   requires dbOK(s) && s.cfg.Storage != nil
+//@   requires dbOK(s) && s.cfg.Storage != nil && cb != nil
 //@   modifies lists, lastPutPrefix, lastPutName, lastPutOK, puts, deletes, deleteFailures, traceCut, s.cfg.Storage.Prefix
 //@   ensures never-writes: puts == old(puts) && deletes == old(deletes)
 //@   at call:funcvalue assert reported-entry-is-older-than-its-successor: gv.ModEpochNanos < r.cutoff
